@@ -52,6 +52,8 @@ func callParser(which int, text string) (o c04Out) {
 
 var parserNames = []string{"ParseList", "ParseObject"}
 
+var c04Salts = []string{"\n\n[\"interleaved call\", {\"k\": [1, 2.5, null], \"j\": \"v\"}, [[true]]] trailing", "{\"key\": [\"unfinished" + bs + "n, {\"a\":\n\n 12"}
+
 // c04Total checks totality, exclusivity and determinism of one parser on one byte string.
 func c04Total(which int, text string) (msg, sig string) {
 	a := callParser(which, text)
@@ -62,6 +64,10 @@ func c04Total(which int, text string) (msg, sig string) {
 	if a.isNil == (a.err == nil) {
 		return fmt.Sprintf("%s(%+q) returned container nil=%v together with error %v", name, text, a.isNil, a.err), "total/not-exclusive/" + name
 	}
+	// determinism across an interleaved call on a DIFFERENT input (state leaking from one call into
+	// the next would show here): a long valid document and a truncated one are parsed in between
+	callParser(which, c04Salts[0])
+	callParser(1-which, c04Salts[1])
 	b := callParser(which, text)
 	if b.panicked || b.isNil != a.isNil || (a.err == nil) != (b.err == nil) || (a.err != nil && a.err.Error() != b.err.Error()) {
 		return fmt.Sprintf("%s(%+q) is not deterministic: first (nil=%v, err=%v), second (nil=%v, err=%v, panic=%v)", name, text, a.isNil, a.err, b.isNil, b.err, b.panicked), "total/nondeterministic/" + name
